@@ -85,6 +85,9 @@ func (fr *frame) get(key ssa.Value) value {
 		if s := sentinelError(fr.i, key); s != nil {
 			cell = s
 		}
+		if e := base64Global(key); e != nil {
+			cell = e
+		}
 		fr.i.globals[key] = &cell
 		return &cell
 	}
